@@ -604,6 +604,25 @@ def _str_method(s, name):
                 raise PyRaise(type(e).__name__, str(e))
         if isinstance(s, str):
             import re as _re
+            import string as _string
+            from .core import PyPath
+            # '{:s}' / '{0:>9s}' on a value that is not a string is a TypeError in CPython
+            auto = 0
+            for _lit, field, spec, conv in _string.Formatter().parse(s):
+                if field is None:
+                    continue
+                head = field.split('.')[0].split('[')[0]
+                if head == '':
+                    v = a[auto] if auto < len(a) else None
+                    auto += 1
+                elif head.isdigit():
+                    v = a[int(head)] if int(head) < len(a) else None
+                else:
+                    v = k.get(head)
+                plain = ('.' not in field and '[' not in field)
+                if plain and conv is None and spec and spec.endswith('s') and isinstance(v, (PyPath, int, float, Sym, list, tuple, dict)) \
+                        and not isinstance(v, bool):
+                    raise PyRaise('TypeError', 'unsupported format string passed to %s.__format__' % type(v).__name__)
             # pure string fields '{0:1s}{1:s}' on (symbolic) strings that need no padding: plain concatenation
             toks = _re.split(r'(\{\d+(?::\d*s)?\})', s)
             out, ok = [], not k
